@@ -1013,11 +1013,17 @@ impl Property for C14 {
             // output exactly and every word whose main run is not its nodes has the recorded shape
             // (`devClass` in the driver). Every other P1 failure keeps a signature of its own.
             let devs: Vec<char> = dev.chars().filter(|c| *c != '-').collect();
+            // Stated boundary (not a finding): shapes g and j are what TeX itself does (TeX 896: ha is the
+            // node before the first letter; TeX 903: the left boundary takes part only if ha is a
+            // boundary ligature (init_lft) or the word starts with one (found2), and whatever precedes ha
+            // stays) — chained left-boundary rules of synthetic fonts. Outside the quantifier when the
+            // model reproduces the output exactly and every deviating word has shape g or j.
+            if model_exact && !devs.is_empty() && devs.iter().all(|c| "gj".contains(*c)) {
+                out.tag("boundary:TeX-compatible left-boundary chain (shape g/j), P1 not judged");
+            } else {
             let sig = if model_exact && !devs.is_empty() && devs.iter().all(|c| "fgij".contains(*c)) {
-                match devs[0] {
+                match devs.iter().find(|c| "fi".contains(**c)).copied().unwrap_or('f') {
                     'f' => "P1 C14-f right-boundary override artefact (model = output)".to_string(),
-                    'g' => "P1 C14-g left-boundary kern emitted twice (model = output)".to_string(),
-                    'j' => "P1 C14-j left-boundary rule chain not re-applied (model = output)".to_string(),
                     _ => "P1 C14-i left context of the word lost (model = output)".to_string(),
                 }
             } else if model_exact {
@@ -1026,6 +1032,7 @@ impl Property for C14 {
                 format!("P1 {}{}", f("mm"), if nd == 0 { " without any discretionary" } else { "" })
             };
             out.fail(Kind::ImplVsSpec, "P1", sig, format!("deleting the inserted discretionaries does not give the input back\n{}", detail()));
+            }
         }
         if f("p2") != "1" {
             out.tag("P2-violated");
@@ -1078,6 +1085,21 @@ impl Property for C14 {
                 }
                 if parts[0].trim() == "1" && f("p2") != "1" {
                     out.fail(Kind::ModelVsSpec, "recon", "P2 fails although model = output", detail());
+                }
+                // `positions_exact_list` on the real output, and `expectedM` vs the findWords-based positions
+                let flag = |k: &str| parts.get(3).and_then(|x| x.split(' ').find_map(|w| w.strip_prefix(k))).unwrap_or("").to_string();
+                if flag("ee=") != "1" {
+                    out.fail(Kind::ModelVsSpec, "positions", "expectedM differs from the positions of findWords", detail());
+                }
+                if flag("pe=") != "1" {
+                    out.tag("positions_exact_list:false-on-real-output");
+                    if parts[0].trim() == "1" {
+                        out.fail(Kind::ModelVsSpec, "positions", "positions_exact_list fails although model = output", detail());
+                    } else if f("extra") == "_" && f("missU") == "_" {
+                        out.fail(Kind::ImplVsSpec, "positions", "break positions are not the uncovered allowed positions", detail());
+                    }
+                } else {
+                    out.tag("positions_exact_list:holds-on-real-output");
                 }
                 // the engine itself: items and separation points of every main run vs the real RunIter
                 for run in parts.get(1).unwrap_or(&"").split(';').filter(|r| !r.trim().is_empty()) {
